@@ -7,6 +7,9 @@
 -/
 import BartiqProofs.Refinement
 import Properties.C10
+import Mathlib.Algebra.BigOperators.Group.List.Basic
+import Mathlib.Algebra.Ring.Defs
+import Mathlib.Tactic.Ring
 namespace Bartiq
 open Expr
 variable {V : Type}
@@ -114,5 +117,71 @@ theorem C08_exactly_those_children (children : List Routine) (ty : ResTy) (n : S
 theorem C08_explicit_wins (r : Routine) (x : Resource) (hx : x ∈ r.resources) : x ∈ (propagateChildResourcesStep r).resources := by
   obtain ⟨extra, h⟩ := C10_propagation_only_adds r
   rw [h]; exact List.mem_append_left _ hx
+
+/-! ### the "consequently" clause: from node-by-node accumulation to the flat sum over leaves
+
+  The theorems above say what ONE node gets: the sum of its children's values (default propagation), or — for a repetition
+  wrapper — its child's value times the sequence's sum (C07_model_*).  The clause "when only leaves define an additive resource,
+  the top-level value equals the sum over all leaves of the leaf value weighted by the repetition sums of its repeated ancestors"
+  is the algebraic consequence of applying that at every level; it is proved here for value trees over any commutative semiring
+  (the tie of the premises to the code is the refinement theorem C01 + the oracle's flat-sum check on real compiled trees). -/
+
+/-- the values the hierarchy computes level by level: a leaf's own value, a plain node's sum over its children, a repetition
+    wrapper's child value times the weight of its sequence -/
+inductive WTree (R : Type) where
+  | leaf (v : R)
+  | node (children : List (WTree R))
+  | rep (weight : R) (child : WTree R)
+
+namespace WTree
+variable {R : Type} [CommSemiring R]
+
+mutual
+/-- bottom-up, one level at a time (what compilation does) -/
+def value : WTree R → R
+  | leaf v => v
+  | node cs => valueList cs
+  | rep w c => w * value c
+def valueList : List (WTree R) → R
+  | [] => 0
+  | c :: cs => value c + valueList cs
+end
+
+mutual
+/-- all leaves with the product of the weights of their repeated ancestors -/
+def leaves : R → WTree R → List (R × R)
+  | acc, leaf v => [(acc, v)]
+  | acc, node cs => leavesList acc cs
+  | acc, rep w c => leaves (acc * w) c
+def leavesList : R → List (WTree R) → List (R × R)
+  | _, [] => []
+  | acc, c :: cs => leaves acc c ++ leavesList acc cs
+end
+
+/-- the flat sum: every leaf value weighted by the repetition sums above it -/
+def flat (t : WTree R) : R := ((leaves 1 t).map fun p => p.1 * p.2).sum
+
+mutual
+theorem flat_aux : ∀ (t : WTree R) (acc : R), ((leaves acc t).map fun p => p.1 * p.2).sum = acc * value t
+  | leaf v, acc => by simp [leaves, value]
+  | node cs, acc => by simp only [leaves, value]; exact flatList_aux cs acc
+  | rep w c, acc => by simp only [leaves, value]; rw [flat_aux c (acc * w)]; ring
+theorem flatList_aux : ∀ (cs : List (WTree R)) (acc : R), ((leavesList acc cs).map fun p => p.1 * p.2).sum = acc * valueList cs
+  | [], acc => by simp [leavesList, valueList]
+  | c :: cs, acc => by
+    simp only [leavesList, valueList, List.map_append, List.sum_append]
+    rw [flat_aux c acc, flatList_aux cs acc]; ring
+end
+
+end WTree
+
+/-- **the top-level value equals the sum over all leaves of the leaf value weighted by the repetition sums of its repeated
+    ancestors** — for every hierarchy shape and depth, over any commutative semiring -/
+theorem C08_top_level_is_weighted_leaf_sum {R : Type} [CommSemiring R] (t : WTree R) : t.value = t.flat := by
+  unfold WTree.flat
+  rw [WTree.flat_aux t 1, one_mul]
+
+-- non-vacuity: root{ leaf 3, rep×4{ node{ leaf 5, leaf 1 } } } = 3 + 4·5 + 4·1 = 27 over ℕ
+example : (WTree.node [.leaf 3, .rep 4 (.node [.leaf 5, .leaf 1])] : WTree Nat).value = 27 := by decide
 
 end Bartiq
